@@ -22,6 +22,15 @@ pub fn bases() -> Vec<(&'static str, Vec<(String, String)>)> {
         ("nested_standalone", vec![("p::o".into(), format!("{x_local}{o_std}"))]),
         ("nested_module_import", vec![("p::a".into(), a_mod.into()), ("p::o".into(), format!("use p::a;\n{o_std}"))]),
         ("nested_type_import", vec![("a".into(), a_mod.into()), ("p::o".into(), format!("use a::X;\n{o_std}"))]),
+        // a by-name import followed by a module import that supplies another name (`Y`)
+        (
+            "type_then_module_import",
+            vec![
+                ("a".into(), a_mod.into()),
+                ("b".into(), "pub type Y {\n    pub q: u32,\n    pub r: u32,\n}\n".into()),
+                ("o".into(), format!("use a::X;\nuse b;\n{o_std}pub type UsesY {{\n    pub y: Y,\n    pub p: *const Y,\n}}\n")),
+            ],
+        ),
     ]
 }
 
@@ -52,10 +61,12 @@ fn unrelated() -> Vec<(&'static str, String)> {
         ("module_doc_and_empty", "//! an unrelated module\n".into()),
         ("big_aligned", "#[align(16)]\npub type X {\n    pub a: u128,\n}\n".into()),
         ("singleton_same_name", "#[singleton(0x5000)]\npub type O {\n    pub z: u32,\n}\n".into()),
+        ("names_supplied_by_imports", "pub type Y {\n    pub z: [u64; 4],\n}\npub type X {\n    pub z: [u64; 3],\n}\npub type Helper {\n    pub z: u8,\n}\n".into()),
     ]
 }
 
-const UPATHS: &[&str] = &["z", "q::r", "o::sub", "a::sub", "aa", "p", "p::z", "p::o::sub"];
+// (`a::X` is also the path of a type that some base sets import by name; `b::Y` that of a type reached through `use b;`)
+const UPATHS: &[&str] = &["z", "q::r", "o::sub", "a::sub", "aa", "p", "p::z", "p::o::sub", "a::X", "b::Y"];
 
 #[derive(Clone, Debug)]
 struct Case {
@@ -80,7 +91,7 @@ fn cases() -> Vec<Case> {
                     if u1 == u2 {
                         continue;
                     }
-                    for (p1, p2) in [(0, 1), (2, 0), (4, 3), (5, 6), (7, 5)] {
+                    for (p1, p2) in [(0, 1), (2, 0), (4, 3), (5, 6), (7, 5), (8, 9)] {
                         out.push(Case { base, changes: vec![(u1, p1), (u2, p2)], first });
                     }
                 }
@@ -109,7 +120,7 @@ pub fn run(tier: &str, only: Option<&Value>) -> i32 {
     let bs = bases();
     let un = unrelated();
     let all = cases();
-    rep.rule = "E1 over pairs (S, S'): S one of six base input sets around an observed module `o` (stand-alone; importing a module, a type, a nested module, transitively; using an extern type), S' = S plus one unrelated module (14 bodies chosen to collide by name with o's types, its generated vftable struct, its enum, its extern value, to import o, to derive from it, ...) at one of five module paths (incl. child paths of o and of an imported module), or plus two such modules, added before or after S; also S' = S plus an unreferenced type in an imported module. Pairs whose S' is rejected are skipped and counted. Oracle: o's output file byte-identical. distinct = distinct S' texts".into();
+    rep.rule = "E1 over pairs (S, S'): S one of ten base input sets around an observed module `o` (stand-alone; importing a module, a type, a nested module, transitively; using an extern type), S' = S plus one unrelated module (16 bodies chosen to collide by name with o's types, its generated vftable struct, its enum, its extern value, to import o, to derive from it, ...) at one of ten module paths (incl. child paths of o and of an imported module, and the paths of types that o imports by name or reaches through a module import), or plus two such modules, added before or after S; also S' = S plus an unreferenced type in an imported module. Pairs whose S' is rejected are skipped and counted. Oracle: o's output file byte-identical. distinct = distinct S' texts".into();
     let only_i = only.map(|l| (l["index"].as_u64().unwrap_or(0) as usize, l["ps"].as_u64().unwrap_or(8) as usize));
     for ps in [4usize, 8] {
         if matches!(only_i, Some((_, p)) if p != ps) {
